@@ -617,7 +617,9 @@ private:
   // Template needed to ensure that function isn't instantiated for unsupported
   // types like function pointers which causes compile errors...
   template<typename T2 = T>
-  inline const void* verify_range_helper(std::size_t count) const
+  inline const void* verify_range_helper(
+    std::size_t count,
+    std::size_t elem_size = sizeof(T_CopyAndVerifyRangeEl)) const
   {
     static_assert(std::is_pointer_v<T>);
     static_assert(detail::is_fundamental_or_enum_v<T_CopyAndVerifyRangeEl>);
@@ -632,7 +634,7 @@ private:
     }
 
     detail::check_range_doesnt_cross_app_sbx_boundary<T_Sbx>(
-      start, count * sizeof(T_CopyAndVerifyRangeEl));
+      start, detail::checked_range_size(count, elem_size));
 
     return start;
   }
@@ -641,7 +643,10 @@ private:
   inline std::unique_ptr<T_CopyAndVerifyRangeEl[]> copy_and_verify_range_helper(
     std::size_t count) const
   {
-    const void* start = verify_range_helper(count);
+    // the elements are read from sandbox memory, where they have the size
+    // given by the sandbox's ABI
+    const void* start = verify_range_helper(
+      count, sizeof(tainted_volatile<T_CopyAndVerifyRangeEl, T_Sbx>));
     if (start == nullptr) {
       return nullptr;
     }
